@@ -19,6 +19,7 @@ func init() {
 			"R2.3 plain http to the proxy, original scheme carried: job.Scheme and the group's __scheme__ label are the constant http (the label written after the target's labels were copied), and the scheme parameter carries the target's own __scheme__ label (default http); " +
 			"R2.5 label precedence on the discovery side: all per-target labels enter the label set, group labels only where the target does not define the label itself (Prometheus' rule); R2.4 group shape: one group per assigned target, every label of the target copied unconditionally, __address__ taken from the target's labels, the hash parameter rendered from Target.Hash. " +
 			"R2.6 completed address: after relabeling, __address__ and the instance default are the port-completed address and the address check is made on it (Prometheus' order); R2.7 fresh translation: every published target is translated in the current update under the job configuration that is current then (kept translations are reported: their invalidation is not decidable). " +
+			"R2.6 also: the job defaults (job, metrics path, scheme) are set before relabeling exactly under 'discovered value is empty'; R2.8 the labels derived from the job's params are removed by their full name __param_<key> or by the name with exactly that prefix removed (no cut-set trimming or replacing of the name). " +
 			"Not decided: everything that depends on label values (relabel evaluation, de-duplication, dropped targets).",
 		Assumptions: []string{"go/types and go/ssa are correct"}})
 }
@@ -112,8 +113,10 @@ func runC02(p *engine.Prog, r *engine.Report) {
 	r.Min("R2.5-label-precedence", 1)
 	r.Min("R2.6-completed-address", 1)
 	r.Min("R2.7-fresh-translation", 1)
+	r.Min("R2.8-param-labels", 1)
 	checkPopulate(p, r)
 	checkFreshTranslation(p, r)
+	checkParamFilter(p, r)
 
 	// ---- the group writer: function building targetgroup.Group from []*target.Target
 	var writer *ssa.Function
